@@ -246,6 +246,32 @@ func runC05(w *World, r *Report) {
 	// a wallet's checkpoint record is rewritten at every truncation: a record that is skipped keeps saying what the wallet
 	// owned one truncation ago (funds that were spent since exist twice)
 	checkpointWritesEveryAddress(w, r, "checkpoint-replaces-every-record")
+	// ---- 0b. the operands are worked on in place; a copy back into an operand is the undo of a failure, nothing else
+	r.rule("restore-only-on-failure", "in Supply / Transfer a copyFrom into an operand is followed only by error returns: the success path has updated the operands in place (a compute-on-copies-then-commit scheme overwrites one result with the other when both operands are the same object)", 2)
+	for _, spec := range [][2]string{{"Melange", "Supply"}, {"", "Transfer"}} {
+		f := w.fx(r, "spice", spec[0], spec[1])
+		if f == nil {
+			continue
+		}
+		nCopy, bad := 0, 0
+		for _, c := range callsTo(f.fn, cn("spice", "*Melange", "copyFrom")) {
+			recv, _ := callArgs(c)
+			if _, isPrm := strip(recv).(*ssa.Parameter); !isPrm {
+				continue
+			}
+			nCopy++
+			walkFrom(c.(ssa.Instruction), nil, nil, func(x ssa.Instruction) bool {
+				if ret, ok := x.(*ssa.Return); ok {
+					if successReturn(ret) {
+						bad++
+					}
+					return true
+				}
+				return false
+			})
+		}
+		r.check(bad == 0, "restore-only-on-failure", spec[1], w.Pos(f.fn.Pos()), fmt.Sprintf("every copy back into an operand (%d) leads to an error return", nCopy), fmt.Sprintf("%d successful returns are reachable after a copyFrom into an operand", bad))
+	}
 	// ---- 1. failure changes neither side
 	r.rule("atomic-on-failure", "at every error return of Supply/Transfer no *Melange pointee differs from its entry value: each store is undone by copyFrom(clone taken at entry) on every feasible path", 6)
 	for _, spec := range [][2]string{{"Melange", "Supply"}, {"", "Transfer"}} {
@@ -962,6 +988,34 @@ func runC07(w *World, r *Report) {
 	checkpointWritesEveryAddress(w, r, "checkpoint-writes-every-address")
 	checkpointKeyDiscipline(w, r, "checkpoint-keys-agree")
 	checkpointCountsWhatBalanceCounts(w, r, "checkpoint-counts-what-the-balance-counts")
+	// a transaction whose vertex left the live graph is answered from storage: whatever the graph lookup fails with
+	r.rule("by-hash-read-falls-back-to-storage", "in ReadTransactionByHash every failure of the live-graph lookup leads to the storage read before any return (a fallback that is taken only for a recognised error value is skipped when the recognition fails)", 1)
+	if rt := w.fx(r, "accountant", "AccountingBook", "ReadTransactionByHash"); rt != nil {
+		n := 0
+		for _, d := range deepCalls(rt.fn, byName(nGetVertex), deepDepth) {
+			if len(d.chain) > 0 {
+				continue
+			}
+			n++
+			missed := 0
+			for _, fe := range failErrNonNil(d.c) {
+				walkFrom(nil, fe.To(), nil, func(x ssa.Instruction) bool {
+					if c, ok := x.(ssa.CallInstruction); ok && strings.Contains(calleeName(c), "FromStorage") {
+						return true
+					}
+					if _, isRet := x.(*ssa.Return); isRet {
+						missed++
+						return true
+					}
+					return false
+				})
+			}
+			r.check(missed == 0 && len(failErrNonNil(d.c)) > 0, "by-hash-read-falls-back-to-storage", "ReadTransactionByHash/GetVertex", lineOf(w, d.c), "a failed graph lookup is followed by the storage read", fmt.Sprintf("%d returns are reachable from the failed lookup without reading the storage", missed))
+		}
+		if n == 0 {
+			r.ok("by-hash-read-falls-back-to-storage", "ReadTransactionByHash/no-direct-lookup", w.Pos(rt.fn.Pos()), "the graph lookup is delegated to a helper")
+		}
+	}
 
 	storageWriters(w, r, "storage-only-what-is-pruned")
 
@@ -1236,6 +1290,20 @@ func keyShape(v ssa.Value, isLeaf func(ssa.Value) bool, d int) string {
 	case *ssa.BinOp:
 		return "(" + keyShape(x.X, isLeaf, d+1) + x.Op.String() + keyShape(x.Y, isLeaf, d+1) + ")"
 	case *ssa.Slice:
+		if al, ok := x.X.(*ssa.Alloc); ok && !isSourceVar(al) {
+			// the argument list of a variadic call / a slice literal: its elements
+			var parts []string
+			for _, ref := range *al.Referrers() {
+				if ia, ok := ref.(*ssa.IndexAddr); ok {
+					for _, r2 := range *ia.Referrers() {
+						if st, ok := r2.(*ssa.Store); ok && st.Addr == ssa.Value(ia) {
+							parts = append(parts, keyShape(st.Val, isLeaf, d+1))
+						}
+					}
+				}
+			}
+			return "[" + strings.Join(parts, ",") + "]"
+		}
 		s := "slice(" + keyShape(x.X, isLeaf, d+1)
 		for _, b := range []ssa.Value{x.Low, x.High} {
 			if b == nil {
